@@ -149,13 +149,8 @@ class Builder:
         keep, self.log = self.log, False
         out = 'value'
         try:
-<<<<<<< HEAD
-            self.step(h)
-        except (IndexError, KeyError, ValueError, AttributeError) as exc:
-=======
             self._apply(h)
         except Exception as exc:
->>>>>>> dev2
             out = 'error:' + type(exc).__name__
         self.log = keep
         post, anom = project(self.model, self.naming)
